@@ -73,6 +73,7 @@ type Engine struct {
 	oblFilter    string
 
 	undecided []string // keyed functions/loops that no longer exist
+	localClause string // label of the clause over locals being type-checked
 	broken    []string // engine-level problems (spec does not type-check, ...)
 	mirrorSrc map[string]string
 	warnings  []string
@@ -194,8 +195,15 @@ func (eng *Engine) overlay() (map[string][]byte, error) {
 	return ov, nil
 }
 
+func ifaceStubName(key string) string { return "gh_im_" + strings.ReplaceAll(key, ".", "_") }
+
 func (eng *Engine) lemmaStubs(ps *PkgSpec) string {
 	var b strings.Builder
+	for _, k := range ps.Order {
+		if c := ps.Contracts[k]; c.Iface != "" {
+			fmt.Fprintf(&b, "func %s%s {\n\tpanic(0)\n}\n", ifaceStubName(k), c.Iface)
+		}
+	}
 	for _, l := range ps.Lemmas {
 		fmt.Fprintf(&b, "func gh_lemma_%s(%s) {\n}\n", l.Name, l.Params)
 	}
@@ -303,6 +311,12 @@ func (eng *Engine) indexPackage(p *packages.Package, ps *PkgSpec) {
 	for _, key := range ps.Order {
 		c := ps.Contracts[key]
 		u := byKey[key]
+		if u == nil && c.Iface != "" {
+			u = eng.ifaceUnit(p, ps, key, c)
+			if u == nil {
+				continue
+			}
+		}
 		if u == nil {
 			eng.undecided = append(eng.undecided, fmt.Sprintf("%s: function %s (contract at %s:%d) not found", ps.Dir, key, c.File, c.Line))
 			continue
@@ -338,12 +352,78 @@ func (eng *Engine) indexPackage(p *packages.Package, ps *PkgSpec) {
 }
 
 var resultRe = regexp.MustCompile(`\bresult(\d*)\b`)
+var undefinedRe = regexp.MustCompile(`undefined: ([A-Za-z_][A-Za-z0-9_]*)$`)
+
+// ifaceUnit builds the unit of a contract on an interface method: the clauses
+// are type-checked in the scope of a generated stub (receiver first), the
+// callee is the interface method itself.
+func (eng *Engine) ifaceUnit(p *packages.Package, ps *PkgSpec, key string, c *Contract) *FuncUnit {
+	bad := func(f string, a ...any) *FuncUnit {
+		eng.broken = append(eng.broken, fmt.Sprintf("%s:%d: %s", c.File, c.Line, fmt.Sprintf(f, a...)))
+		return nil
+	}
+	parts := strings.SplitN(key, ".", 2)
+	if len(parts) != 2 {
+		return bad("iface contract key %q must be Interface.Method", key)
+	}
+	tn, _ := p.Types.Scope().Lookup(parts[0]).(*types.TypeName)
+	if tn == nil {
+		return bad("interface type %s not found", parts[0])
+	}
+	it, _ := tn.Type().Underlying().(*types.Interface)
+	if it == nil {
+		return bad("%s is not an interface type", parts[0])
+	}
+	var m *types.Func
+	for i := 0; i < it.NumMethods(); i++ {
+		if it.Method(i).Name() == parts[1] {
+			m = it.Method(i)
+		}
+	}
+	if m == nil {
+		return bad("interface %s has no method %s", parts[0], parts[1])
+	}
+	var stubDecl *ast.FuncDecl
+	var stubFn *types.Func
+	for _, f := range p.Syntax {
+		for _, d := range f.Decls {
+			if fd, ok := d.(*ast.FuncDecl); ok && fd.Name.Name == ifaceStubName(key) {
+				stubDecl = fd
+				stubFn, _ = p.TypesInfo.Defs[fd.Name].(*types.Func)
+			}
+		}
+	}
+	if stubDecl == nil || stubFn == nil {
+		return bad("stub for %s was not generated", key)
+	}
+	ss, ms := stubFn.Type().(*types.Signature), m.Type().(*types.Signature)
+	if ss.Params().Len() != ms.Params().Len()+1 || ss.Results().Len() != ms.Results().Len() {
+		return bad("iface signature of %s does not match the method (%s)", key, ms)
+	}
+	if !types.Identical(ss.Params().At(0).Type(), tn.Type()) {
+		return bad("first parameter of the iface signature of %s must be the receiver, of type %s", key, parts[0])
+	}
+	for i := 0; i < ms.Params().Len(); i++ {
+		if !types.Identical(ss.Params().At(i+1).Type(), ms.Params().At(i).Type()) {
+			return bad("parameter %d of the iface signature of %s has type %s, the method has %s", i+1, key, ss.Params().At(i+1).Type(), ms.Params().At(i).Type())
+		}
+	}
+	for i := 0; i < ms.Results().Len(); i++ {
+		if !types.Identical(ss.Results().At(i).Type(), ms.Results().At(i).Type()) {
+			return bad("result %d of the iface signature of %s has type %s, the method has %s", i, key, ss.Results().At(i).Type(), ms.Results().At(i).Type())
+		}
+	}
+	return &FuncUnit{Fn: m, Decl: stubDecl, Pkg: p, Spec: ps, stubSig: ss, ifaceKey: key}
+}
 
 // checkContract type-checks all clauses of a contract in the scope of the
 // real function.
 func (eng *Engine) checkContract(u *FuncUnit) {
 	pos := u.Decl.Body.Lbrace + 1
 	sig := u.Fn.Type().(*types.Signature)
+	if u.stubSig != nil {
+		sig = u.stubSig
+	}
 	for _, cl := range u.C.Requires {
 		eng.checkClause(u.Pkg, cl, pos, u, false)
 	}
@@ -357,13 +437,17 @@ func (eng *Engine) checkContract(u *FuncUnit) {
 		eng.checkClause(u.Pkg, cl, pos, u, sig.Results().Len() > 0)
 	}
 	for _, cl := range u.C.EnsuresLocal {
+		eng.localClause = "post:" + cl.Label
 		eng.checkClause(u.Pkg, cl, u.Decl.Body.Rbrace, u, sig.Results().Len() > 0)
+		eng.localClause = ""
 	}
 	for _, cl := range u.C.Defines {
 		eng.checkClause(u.Pkg, cl, pos, u, sig.Results().Len() > 0)
 	}
 	for _, pc := range u.C.PreCalls {
+		eng.localClause = "precall:" + pc.Cl.Label
 		eng.checkClause(u.Pkg, pc.Cl, u.Decl.Body.Rbrace, u, false)
+		eng.localClause = ""
 	}
 	for n, cl := range u.C.ClosureAccepts {
 		lit := nthFuncLit(u.Decl, n)
@@ -399,8 +483,10 @@ func (eng *Engine) checkContract(u *FuncUnit) {
 		case *ast.RangeStmt:
 			lpos = l.Body.Lbrace + 1
 		}
-		for _, cl := range u.C.Loops[n].Inv {
+		for i, cl := range u.C.Loops[n].Inv {
+			eng.localClause = fmt.Sprintf("loop%d.inv%d", n, i)
 			eng.checkClause(u.Pkg, cl, lpos, u, false)
+			eng.localClause = ""
 		}
 	}
 }
@@ -458,6 +544,15 @@ func (eng *Engine) checkClause(p *packages.Package, cl *Clause, pos token.Pos, u
 		Selections: map[*ast.SelectorExpr]*types.Selection{}, Instances: map[*ast.Ident]types.Instance{}, Implicits: map[ast.Node]types.Object{},
 		Scopes: map[ast.Node]*types.Scope{}}
 	if err := types.CheckExpr(eng.fset, p.Types, pos, x, info); err != nil {
+		if m := undefinedRe.FindStringSubmatch(err.Error()); m != nil && eng.localClause != "" && u != nil && !strings.HasPrefix(m[1], "gh_") {
+			// The clause names a local variable that the function does not have in
+			// scope there (any more): the obligation can no longer be stated for this
+			// code. It is reported as a failed obligation of that clause, not as a
+			// broken specification.
+			cl.unstatable = true
+			u.unstatable = append(u.unstatable, unstatableClause{label: eng.localClause, text: cl.Text, name: m[1], file: cl.File, line: cl.Line})
+			return
+		}
 		eng.broken = append(eng.broken, fmt.Sprintf("%s:%d: contract clause does not type-check: %q: %v", cl.File, cl.Line, text, err))
 		return
 	}
@@ -718,7 +813,7 @@ func (fv *FV) callMayWriteHeap(x *ast.CallExpr) bool {
 			return false
 		}
 	}
-	if fn == nil || isIface {
+	if fn == nil || (isIface && fv.eng.unitOf(fn) == nil) {
 		return true
 	}
 	if _, ok := fv.eng.pureName(fn); ok {
